@@ -94,6 +94,35 @@ Proof.
   rewrite mem_room_of. unfold room_of. destruct (ns_rooms m ns); [discriminate|discriminate].
 Qed.
 
+Lemma disc_release_pcount m sid ns :
+  NoDup (map fst (pending m)) ->
+  forall ns' s', pcount (disc_release m sid ns) ns' s' =
+                 (pcount m ns' s' - (if str_eqb ns ns' && str_eqb sid s' then 1 else 0))%nat.
+Proof.
+  intros Hnd ns' s'. unfold disc_release. cbv zeta.
+  assert (Hpend : forall c, is_pending (mkMgr (rooms m) (pending m) c) sid ns = is_pending m sid ns) by reflexivity.
+  rewrite Hpend. cbn [pending].
+  destruct (is_pending m sid ns) eqn:Ep.
+  - unfold pcount, plist at 1. cbn [pending].
+    assert (Hl : match aget str_eqb (pending m) ns with Some l => remove_first l sid | None => [] end
+                 = remove_first (plist m ns) sid).
+    { unfold plist, agetd. destruct (aget str_eqb (pending m) ns); reflexivity. }
+    rewrite Hl.
+    change (match remove_first (plist m ns) sid with
+            | [] => adel str_eqb (pending m) ns
+            | _ :: _ => aset str_eqb (pending m) ns (remove_first (plist m ns) sid) end)
+      with (acol str_eqb (pending m) ns (remove_first (plist m ns) sid)).
+    rewrite (e_agetd_acol str_eqb str_eqb_eq) by exact Hnd.
+    destruct (str_eqb ns ns') eqn:E1; cbn [andb].
+    + apply str_eqb_eq in E1. subst ns'. apply occ_remove_first.
+    + fold (plist m ns'). lia.
+  - unfold pcount, plist. cbn [pending].
+    destruct (str_eqb ns ns' && str_eqb sid s') eqn:E; [|lia].
+    apply andb_true_iff in E as [E1 E2]. apply str_eqb_eq in E1, E2. subst ns' s'.
+    rewrite is_pending_count in Ep. unfold pcount, plist in Ep.
+    destruct (occ (agetd str_eqb [] (pending m) ns) sid); [reflexivity|discriminate].
+Qed.
+
 Lemma mgr_disconnect_pcount m sid ns :
   Struct m -> ns_rooms m ns <> None ->
   forall ns' s', pcount (mgr_disconnect m sid ns) ns' s' =
@@ -110,7 +139,7 @@ Proof.
   assert (Hm1 : fold_left (fun m r => leave_room m sid ns r) (disc_names rm sid) m = leave_pairs ns L m).
   { unfold L, leave_pairs. rewrite fold_left_map'. reflexivity. }
   unfold mgr_disconnect. rewrite Ens. unfold disc_names in Hm1. rewrite Hm1.
-  set (m1 := leave_pairs ns L m) in *. clearbody m1. cbv zeta.
+  set (m1 := leave_pairs ns L m) in *. clearbody m1. unfold disc_release. cbv zeta.
   assert (Hpend : forall c, is_pending (mkMgr (rooms m1) (pending m1) c) sid ns = is_pending m sid ns).
   { intro c. unfold is_pending. cbn [pending]. rewrite Hp1. reflexivity. }
   rewrite Hpend. cbn [pending]. rewrite Hp1.
